@@ -114,5 +114,86 @@ theorem pushDesc_cous (np : List GPos) (x : Nat) (pc : List Nat) (hpc : pc ≠ [
       · exact h p h1
       · simp at h1; subst h1; exact hpc
 
+def qAbs (t : QEntry) : AEntry := (t.1, !t.2.1.isEmpty)
+
+theorem pushSelf_map (q : List QEntry) (x1 cc : Nat) :
+    (pushSelf q x1 cc).map qAbs = pushSelfA (q.map qAbs) x1 := by
+  cases q with
+  | nil => simp [pushSelf, pushSelfA, qAbs]
+  | cons t q' =>
+    obtain ⟨x', p', m'⟩ := t
+    simp only [pushSelf, pushSelfA, List.map_cons, qAbs]
+    split <;> simp [qAbs]
+
+structure AccRel (g : GAcc) (a : AAcc) : Prop where
+  pos : g.nextPos.map GPos.x = a.nextPos
+  cous : ∀ p ∈ g.nextPos, p.cous ≠ []
+  ret : g.retval = if a.matched then .bool true else .none
+
+theorem gLoop_abstract (S : List Step) (rlen : Nat) (e : Event)
+    (hnp : NoPositional ns vs S) (hlast : lastResult S e ns = .bool true) :
+    ∀ (fuel : Nat) (Qg : List QEntry) (g : GAcc) (a : AAcc), AccRel g a →
+      AccRel (gLoop S rlen e ns vs fuel Qg g) (aLoop ns vs S rlen e fuel (Qg.map qAbs) a) := by
+  intro fuel
+  induction fuel with
+  | zero => intro Qg g a h; simpa [gLoop, aLoop] using h
+  | succ fuel ih =>
+    intro Qg g a h
+    cases Qg with
+    | nil => simpa [gLoop, aLoop] using h
+    | cons t q =>
+      obtain ⟨x, pcou, mcou⟩ := t
+      cases hst : S[x]? with
+      | none => simpa [gLoop, aLoop, qAbs, hst] using h
+      | some st =>
+        have hmem : st ∈ S := List.mem_of_getElem? hst
+        have hpre := gPreds_nonpos ns vs e (pcou ++ mcou) st.preds (fun p hp => hnp st hmem p hp e)
+        simp only [gLoop, aLoop, List.map_cons, qAbs, hst, hpre, hitE]
+        -- the next_pos after the descendant bookkeeping
+        have hN : AccRel
+            ⟨(if isDescLike st.axis && !pcou.isEmpty then pushDesc g.nextPos x pcou else g.nextPos), g.store, g.retval⟩
+            ⟨(if isDescLike st.axis && !pcou.isEmpty then pushDescA a.nextPos x else a.nextPos), a.matched⟩ := by
+          refine ⟨?_, ?_, h.ret⟩
+          · split
+            · rw [pushDesc_map, h.pos]
+            · exact h.pos
+          · split
+            · rename_i hc
+              have : pcou ≠ [] := by
+                intro h0; simp [h0] at hc
+              exact pushDesc_cous _ _ _ this h.cous
+            · exact h.cous
+        by_cases ht : st.test.matches e ns = true
+        · simp only [ht, Bool.not_true, Bool.false_eq_true, if_false, Bool.true_and]
+          by_cases hp : (st.preds.all fun p => (p.eval e ns vs).truthy) = true
+          · simp only [hp, Bool.not_true, Bool.false_eq_true, if_false]
+            by_cases hl : (x + 1 == rlen) = true
+            · simp only [hl, if_true, hlast, Val.truthy]
+              exact ih q _ _ ⟨hN.pos, hN.cous, by simp⟩
+            · simp only [hl, Bool.false_eq_true, if_false]
+              rw [← pushSelf_map]
+              have hq : (if ((S[x + 1]?.map Step.axis).getD .child == Axis.descendantOrSelf ||
+                            (S[x + 1]?.map Step.axis).getD .child == Axis.self) = true
+                          then (pushSelf q (x + 1) g.store.length).map qAbs else q.map qAbs)
+                      = (if ((S[x + 1]?.map Step.axis).getD .child == Axis.descendantOrSelf ||
+                            (S[x + 1]?.map Step.axis).getD .child == Axis.self) = true
+                          then pushSelf q (x + 1) g.store.length else q).map qAbs := by
+                split <;> rfl
+              rw [hq]
+              refine ih _ _ _ ⟨?_, ?_, hN.ret⟩
+              · split
+                · rw [List.map_append, hN.pos]; rfl
+                · exact hN.pos
+              · split
+                · intro p hp'
+                  rcases List.mem_append.mp hp' with h1 | h1
+                  · exact hN.cous p h1
+                  · simp at h1; subst h1; simp
+                · exact hN.cous
+          · simp only [hp, Bool.not_false, if_true]
+            exact ih q _ _ hN
+        · simp only [ht, Bool.not_false, if_true, Bool.false_and]
+          exact ih q _ _ hN
+
 end
 end Genshi.Path
